@@ -26,7 +26,8 @@ pub fn store() -> Value {
         "arr_mixed": [0, {"var": "s"}, 1],
         "key_op": {"cat": ["s"]},
         "s": "SECRET", "one": 1, "str": "abc", "a": 1,
-        "nested": {"deep": {"var": "s"}}
+        "nested": {"deep": {"var": "s"}},
+        "arr_en": [[], 1], "arr_en2": [1, [], [[], 2]]
     })
 }
 
@@ -41,6 +42,9 @@ pub fn marker_exprs() -> Vec<(&'static str, Value)> {
         ("V:arr_err", json!({"var": "arr_err"})),
         ("V:nested", json!({"var": "nested.deep"})),
         ("V:arr.0", json!({"var": "arr.0"})),
+        ("V:arr_en", json!({"var": "arr_en"})),
+        ("V:arr_en2", json!({"var": "arr_en2"})),
+        ("C:arr_en", json!({"merge": [[[], 1]]})),
         ("C:if", json!({"if": [true, {"var": "m_var"}, 0]})),
         ("C:if-err", json!({"if": [false, 0, {"var": "m_err"}]})),
         ("C:or", json!({"or": [0, {"var": "m_log"}]})),
